@@ -43,8 +43,8 @@ impl GenerationCache {
         structs: &HashMap<String, StructInfo>,
         config: &GenerateConfig,
     ) -> Result<Self, CacheError> {
-        let commands_hash = Self::hash_commands(commands)?;
-        let structs_hash = Self::hash_structs(structs)?;
+        let commands_hash = Self::hash_commands(commands, &config.project_path)?;
+        let structs_hash = Self::hash_structs(structs, &config.project_path)?;
         let config_hash = Self::hash_config(config)?;
         let combined_hash = Self::combine_hashes(&commands_hash, &structs_hash, &config_hash)?;
 
@@ -135,7 +135,17 @@ impl GenerationCache {
     }
 
     /// Generate a deterministic hash of commands
-    fn hash_commands(commands: &[CommandInfo]) -> Result<String, CacheError> {
+    /// Path of a source file relative to the project path, so that the hash does not depend on
+    /// how the project path is spelled (`./src-tauri`, `src-tauri`, absolute)
+    fn relative_to_project<'a>(file_path: &'a str, project_path: &str) -> &'a str {
+        Path::new(file_path)
+            .strip_prefix(project_path)
+            .ok()
+            .and_then(|p| p.to_str())
+            .unwrap_or(file_path)
+    }
+
+    fn hash_commands(commands: &[CommandInfo], project_path: &str) -> Result<String, CacheError> {
         // Create a serializable representation
         #[derive(Serialize)]
         struct CommandHashData<'a> {
@@ -165,14 +175,21 @@ impl GenerationCache {
         // Sort by (file, name): the discovery order follows HashMap iteration order
         let mut sorted_commands: Vec<&CommandInfo> = commands.iter().collect();
         sorted_commands.sort_by(|a, b| {
-            (a.file_path.as_str(), a.name.as_str()).cmp(&(b.file_path.as_str(), b.name.as_str()))
+            (
+                Self::relative_to_project(&a.file_path, project_path),
+                a.name.as_str(),
+            )
+                .cmp(&(
+                    Self::relative_to_project(&b.file_path, project_path),
+                    b.name.as_str(),
+                ))
         });
 
         let hash_data: Vec<CommandHashData> = sorted_commands
             .iter()
             .map(|cmd| CommandHashData {
                 name: &cmd.name,
-                file_path: &cmd.file_path,
+                file_path: Self::relative_to_project(&cmd.file_path, project_path),
                 parameters: cmd
                     .parameters
                     .iter()
@@ -202,7 +219,10 @@ impl GenerationCache {
     }
 
     /// Generate a deterministic hash of structs
-    fn hash_structs(structs: &HashMap<String, StructInfo>) -> Result<String, CacheError> {
+    fn hash_structs(
+        structs: &HashMap<String, StructInfo>,
+        project_path: &str,
+    ) -> Result<String, CacheError> {
         #[derive(Serialize)]
         struct StructHashData<'a> {
             name: &'a str,
@@ -230,7 +250,7 @@ impl GenerationCache {
             .iter()
             .map(|s| StructHashData {
                 name: &s.name,
-                file_path: &s.file_path,
+                file_path: Self::relative_to_project(&s.file_path, project_path),
                 is_enum: s.is_enum,
                 fields: s
                     .fields
@@ -262,7 +282,11 @@ impl GenerationCache {
             default_parameter_case: &'a str,
             default_field_case: &'a str,
             visualize_deps: bool,
+            /// The dependency graph prints the source paths as given
+            project_path: Option<&'a str>,
         }
+
+        let visualize_deps = config.visualize_deps.unwrap_or(false);
 
         let hash_data = ConfigHashData {
             validation_library: &config.validation_library,
@@ -270,7 +294,8 @@ impl GenerationCache {
             type_mappings: config.type_mappings.as_ref().map(|m| m.iter().collect()),
             default_parameter_case: &config.default_parameter_case,
             default_field_case: &config.default_field_case,
-            visualize_deps: config.visualize_deps.unwrap_or(false),
+            visualize_deps,
+            project_path: visualize_deps.then_some(config.project_path.as_str()),
         };
 
         let json = serde_json::to_string(&hash_data)?;
